@@ -17,7 +17,7 @@ INSIDE = {"src": "src", "inc": "inc", "sys": "sys/include", "bld": "build"}
 class Mat:
     """A materialised scenario."""
 
-    def __init__(self, scen, base, seed=0, alias=None, ext_c=".c"):
+    def __init__(self, scen, base, seed=0, alias=None, ext_c=".c", plain=False):
         self.scen = scen
         self.base = base                      # temp dir
         self.root = os.path.join(base, "root")
@@ -32,7 +32,8 @@ class Mat:
             os.makedirs(d, exist_ok=True)
             path = os.path.join(d, f["name"])
             rnd = random.Random(f"{seed}-{fid}")
-            text, lines_of = render.render_c(f["items"], seed=rnd.random(), uid="v" + "".join(c for c in fid if c.isalnum()))
+            text, lines_of = render.render_c(f["items"], seed=rnd.random(), uid="v" + "".join(c for c in fid if c.isalnum()),
+                                             plain=plain)
             with open(path, "w") as fh:
                 fh.write(text)
             self.paths[fid] = os.path.realpath(path)
